@@ -113,6 +113,17 @@ func BuildIntake(r IntakeReq, kt KeyType, base protocol.Protocol, variant int) (
 	case "disabled":
 		patches = DeltaPatches("invalid", 1)
 		p.Patches = without(without(p.Patches, "add-also-known-as"), "remove-also-known-as")
+	case "disabledFirst", "disabledLast", "disabledMiddle":
+		en, dis := DeltaPatches("ok", 1), DeltaPatches("invalid", 1)[1:] // dis: only the patch with the disabled action
+		switch r.Patch {
+		case "disabledFirst":
+			patches = append(append(patches, dis...), en...)
+		case "disabledLast":
+			patches = append(append(patches, en...), dis...)
+		default:
+			patches = append(append(append(patches, en...), dis...), DeltaPatches("ok", 2)...)
+		}
+		p.Patches = without(without(p.Patches, "add-also-known-as"), "remove-also-known-as")
 	case "empty":
 		patches = []patch.Patch{}
 	}
